@@ -21,7 +21,8 @@
       * after quit(): every created worker was quit exactly once and the coordinator is quit.
 (b) stress of the real `ThreadPool` with real threads and E5 yield injection inside Team /
     LockWorker / ThreadWorker / ThreadPool code: random min/max, tasks submitted before start(),
-    1-8 submitter threads, ok/raise/yielding/gated tasks, adjustPoolsize while submitting, stop().
+    1-8 submitter threads, ok/raising (ValueError, and SystemExit / KeyboardInterrupt /
+    asyncio.CancelledError / GeneratorExit: BaseExceptions that are not Exceptions)/yielding/gated tasks, adjustPoolsize while submitting, stop().
     Monitors (log under one lock): each body ran once; onResult exactly once with the right
     (success, value); at every task entry the number of running bodies <= the largest max in force so
     far; gate phases block max+2 tasks to saturate the pool deterministically; after stop() returned
@@ -51,11 +52,21 @@ SHARDS = {"quick": 4, "thorough": 16}
 FLOORS = {"explore_states": 5000, "quiescence_checks": 5000, "quit_quiescence_checks": 1000, "tasks_run_in_exploration": 5000,
           "worker_creations_checked": 2000, "stranded_task_cases": 10, "post_quit_probes": 100,
           "pools": 40, "pool_tasks_run": 5000, "pool_onresult": 5000, "pool_stops": 40, "gate_phases": 5, "yields_injected": 2000,
-          "pool_tasks_failed_as_planned": 500, "pool_pre_start_tasks": 50}
+          "pool_tasks_failed_as_planned": 500, "pool_pre_start_tasks": 50, "pool_tasks_raised_baseexception": 500}
 WATCHDOG_S = {"quick": 900, "thorough": 3000}
 READY = True
 
 MAX_TASKS = 3
+
+
+def _base_kinds():
+    import asyncio
+
+    return {"sysexit": lambda: SystemExit(3), "kbint": KeyboardInterrupt, "cancelled": asyncio.CancelledError, "genexit": GeneratorExit}
+
+
+BASE_KINDS = _base_kinds()
+TASK_KINDS = ["ok"] * 8 + ["raise"] * 4 + ["yield"] * 4 + list(BASE_KINDS)  # 20 % of the failing tasks raise a non-Exception BaseException
 MAX_LIMIT = 2
 BUDGET = 2  # grow / shrink / limit-change actions allowed per history (each)
 
@@ -510,6 +521,8 @@ def run_pool_case(ctx, case, inj_codes):
                     release.wait(30)
                 elif kind == "raise":
                     raise ValueError(tid)
+                elif kind in BASE_KINDS:
+                    raise BASE_KINDS[kind]()  # BaseException that is not an Exception: still "a task that raises"
                 return ("value", tid)
             finally:
                 with mon.lock:
@@ -531,7 +544,7 @@ def run_pool_case(ctx, case, inj_codes):
     inj.start()
     try:
         for j in range(pre_start):
-            submit(("pre", j), rng.choice(["ok", "raise", "yield"]))
+            submit(("pre", j), rng.choice(["ok", "raise", "yield", "sysexit", "cancelled"]))
         pool.start()
         if gate:
             ng = mx + 2
@@ -545,7 +558,7 @@ def run_pool_case(ctx, case, inj_codes):
             release.set()
             ctx.count("gate_phases")
         per = [n_tasks // n_sub + (1 if s < n_tasks % n_sub else 0) for s in range(n_sub)]
-        plans = [[rng.choice(["ok", "ok", "raise", "yield"]) for _ in range(per[s])] for s in range(n_sub)]
+        plans = [[rng.choice(TASK_KINDS) for _ in range(per[s])] for s in range(n_sub)]
 
         def submitter(s):
             for j, kind in enumerate(plans[s]):
@@ -624,6 +637,10 @@ def run_pool_case(ctx, case, inj_codes):
         if kind == "raise":
             ctx.count("pool_tasks_failed_as_planned")
             good = ok is False and isinstance(value, Failure) and value.check(ValueError) and value.value.args == (t,)
+        elif kind in BASE_KINDS:
+            ctx.count("pool_tasks_raised_baseexception")
+            ctx.seen("baseexception_kinds_reported", kind)
+            good = ok is False and isinstance(value, Failure) and value.type is type(BASE_KINDS[kind]())
         else:
             good = ok is True and value == ("value", t)
         if not good:
